@@ -124,11 +124,19 @@ def handle (line : String) : String :=
   | "R" :: file :: name :: rest => showRender (renderTop (hx file) (hx name) (parseEnv rest))
   | _ => "BAD"
 
-partial def loop (h : IO.FS.Stream) (out : IO.FS.Stream) : IO Unit := do
+/-- the last parsed file is kept, so that many renders of one file parse it once -/
+partial def loop (h : IO.FS.Stream) (out : IO.FS.Stream) (cacheKey : String) (cache : Option (List Tmpl)) : IO Unit := do
   let line ← h.getLine
   if line.isEmpty then return ()
-  out.putStrLn (handle line)
-  out.flush
-  loop h out
+  match line.trimAscii.toString.splitOn " " with
+  | "R" :: file :: name :: rest =>
+    let (key, prog) := if file == cacheKey then (cacheKey, cache) else (file, progOf (hx file))
+    out.putStrLn (showRender (renderProg prog (hx name) (parseEnv rest)))
+    out.flush
+    loop h out key prog
+  | _ =>
+    out.putStrLn (handle line)
+    out.flush
+    loop h out cacheKey cache
 
-def main : IO Unit := do loop (← IO.getStdin) (← IO.getStdout)
+def main : IO Unit := do loop (← IO.getStdin) (← IO.getStdout) "" none
